@@ -75,4 +75,22 @@ def stateSync (w : World) (pc : PeerCfg) (pre : PinMap) : Acc :=
       { st := out.post, log := acc.log ++ out.log }
     else acc) { st := pre, log := [] }
 
+/-! ### The alert handler as a loop
+
+`alertsHandler` reads alerts one after the other for as long as the peer runs. What it does for one
+ping alert (`onAlert`) depends on the peerset and trust at the time of that alert and on the pinset
+at that time, never on earlier alerts: the loop keeps no state of its own. An alert that cannot be
+handled (state or peerset unavailable, re-pinning disabled, not a ping alert) is skipped and the
+loop goes on. -/
+
+inductive AlertEv where
+  | ping (w : World) (failed : Nat) (ch : Chosen)   -- a ping alert, seen with the world of its time
+  | skipped                                         -- an alert the handler could do nothing about
+
+def handleEv (pc : PeerCfg) (st : PinMap) : AlertEv → PinMap
+  | .ping w f ch => (onAlert w pc f ch st).st
+  | .skipped => st
+
+def handleAlerts (pc : PeerCfg) (st : PinMap) (evs : List AlertEv) : PinMap := evs.foldl (handleEv pc) st
+
 end CV.C10
